@@ -9,6 +9,7 @@ import (
 // tcLoadProject runs the real loader to a typed project (binder = engine model, see TRUSTED.md).
 func tcLoadProject(env types.Mapping, opts func(*Options), docs ...map[string]any) (*types.Project, error) {
 	tcPrelude(docs)
+	docs = tcRoute(docs)
 	var files []types.ConfigFile
 	names := []string{vrtRoot() + "/w/compose.yaml", vrtRoot() + "/w/override.yaml", vrtRoot() + "/w/third.yaml"}
 	for i, d := range docs {
